@@ -439,6 +439,13 @@ impl Writer {
                     .build()
                     .user_data(*data_idx as u64);
 
+            #[cfg(walrus_verif)]
+            crate::wal::verif::io(crate::wal::verif::Io::BatchWrite {
+                path: blk.mmap.verif_path(),
+                off: file_offset,
+                data: &combined,
+                idx: *data_idx,
+            });
             buffers.push(combined);
 
             unsafe {
@@ -457,6 +464,10 @@ impl Writer {
         );
 
         // Phase 3: Atomic submission
+        #[cfg(walrus_verif)]
+        crate::wal::verif::io(crate::wal::verif::Io::BatchSubmit {
+            n: write_plan.len(),
+        });
         match ring.submit_and_wait(write_plan.len()) {
             Ok(_) => {
                 let mut all_success = true;
@@ -465,6 +476,8 @@ impl Writer {
                         let data_idx = cqe.user_data() as usize;
                         let expected_bytes = buffers.get(data_idx).map(|b| b.len()).unwrap_or(0);
                         let result = cqe.result();
+                        #[cfg(walrus_verif)]
+                        let result = crate::wal::verif::cqe(data_idx, result);
 
                         if result < 0 {
                             all_success = false;
@@ -487,6 +500,8 @@ impl Writer {
                     }
                 }
 
+                #[cfg(walrus_verif)]
+                crate::wal::verif::io(crate::wal::verif::Io::BatchDone);
                 if !all_success {
                     // Clean up garbage before rollback: zero headers for all planned entries
                     for (blk, offset, _idx) in write_plan.iter() {
